@@ -261,7 +261,15 @@ exit 1
 		}
 		return args
 	}
-	if bare {
+	if c.Variant == "gitproto-origin" {
+		// git:// remote: only lfs.gitprotocol (allow-listed) is of interest and it is visible in env;
+		// network commands would talk TLS / git protocol to the plain http listener and sit in retry loops
+		t.run("env", true, "", "git", "lfs", "env")
+		if !bare {
+			t.run("ls-files", false, "", "git", "lfs", "ls-files")
+			t.run("status", false, ".lfsconfig", "git", "lfs", "status")
+		}
+	} else if bare {
 		t.run("env", true, "", "git", "lfs", "env")
 		t.run("ls-files", false, "", "git", "lfs", "ls-files", "main")
 		t.run("fetch", false, "", "git", "lfs", "fetch", v.R1, "main")
